@@ -56,4 +56,20 @@ def bounded(check):
                        replay_cmd="/venv/bin/python %s %s" % (os.path.join(here, "bounded", "factories_destinations.py"), check.repo.root)), open(path2, "w"), indent=1)
         out2["replay"] = path2
     outs.append(out2)
+    p3 = subprocess.run(["/venv/bin/python", os.path.join(here, "bounded", "collect_denylist.py"), check.repo.root],
+                        stdout=subprocess.PIPE, stderr=subprocess.PIPE, universal_newlines=True, timeout=3000)
+    line3 = (p3.stdout.strip().splitlines() or ["{}"])[-1]
+    try:
+        info3 = json.loads(line3)
+    except ValueError:
+        info3 = {"error": (p3.stderr or p3.stdout)[-400:]}
+    out3 = dict(name="collect.collect(): a file / command on the user's deny list is never opened, executed or persisted; allowed files are collected",
+                level="bounded", bound="4 manifests (own blacklist sections empty / holding unrelated entries) x 3 user deny lists x 4 factories",
+                result=info3, violation=(p3.returncode == 1), error=(p3.returncode not in (0, 1)))
+    if p3.returncode == 1:
+        path3 = os.path.join(here, "replays", "C06-bounded-collect.json")
+        json.dump(dict(obligation="bounded:collect-denylist", witness=info3,
+                       replay_cmd="/venv/bin/python %s %s" % (os.path.join(here, "bounded", "collect_denylist.py"), check.repo.root)), open(path3, "w"), indent=1)
+        out3["replay"] = path3
+    outs.append(out3)
     return outs
